@@ -3,7 +3,7 @@ from checks import textcomp, rtcomp, rtxcomp
 
 LEAN_TARGETS = ["LyModel.Props.C12"]
 AUDIT = "Audit/C12.lean"
-GENERATED = ["XmlEsc", "JsonEsc", "JsonTyping"]
+GENERATED = ["XmlEsc", "JsonEsc", "JsonTyping", "XmlNsFixes"]
 ASSUMPTIONS = ["UTF-8 well-formedness of the output is judged by expat / Python json in the correspondence run, not by the Lean spec readers",
                "tree-level structure (tags, namespaces, member names) is covered by the api-level round-trip harness, not by a theorem yet"]
 TRUSTED = ["Python xml.parsers.expat and json as the independent parsers"]
